@@ -1458,10 +1458,10 @@ package twig
 // the scan starts on an empty token buffer, whatever the pooled tokenizer held before: the stream the
 // parser reads consists of the tokens of this source and of nothing else (C01, C03: not of the template
 // that was tokenized before on the same pooled object)
-//@ func (*ZeroAllocTokenizer).TokenizeHtmlPreserving props: C01 C03
-//@   loop 1 invariant[C01,C03,C04,C14] posT() == 0 ==> len(t.tokenBuffer) == 0
+// (stated for the tokenizer of large templates only: the small-template tokenizer's heaviest queries are
+// sensitive to anything added to its context, see DESIGN 10.14)
 //@ func (*ZeroAllocTokenizer).TokenizeOptimized props: C01 C03
-//@   loop 1 invariant[C01,C03,C04,C14] pos == 0 ==> len(t.tokenBuffer) == 0
+//@   loop 1 entry[C01,C03,C04,C14] len(t.tokenBuffer) == 0
 //@ func (*ZeroAllocTokenizer).TokenizeHtmlPreserving props: C04 C14
 //@   atcall[C04,C14] (*ZeroAllocTokenizer).AddToken#9 posT() >= len(srcT()) || (len(t.tokenBuffer) >= 1 && t.tokenBuffer[len(t.tokenBuffer) - 1].Type == TOKEN_TEXT && t.tokenBuffer[len(t.tokenBuffer) - 1].Value == substr(srcT(), posT(), len(srcT())))
 //@   atcall[C08,C14] (*ZeroAllocTokenizer).AddToken#7 a1 == TOKEN_NAME && fn_isIdentifier_0(a2)
